@@ -18,6 +18,10 @@ type Block struct {
 	// DefCond: the default flow carries its kid's condition in the document
 	// (legal; BPMN: a condition on a default flow is ignored)
 	DefCond bool `json:"defCond,omitempty"`
+	// OpenEnd (top block): no end event behind the last node when that node is
+	// a task or a sub-process - it has NO outgoing sequence flow and its token
+	// ends there (legal BPMN: implicit end)
+	OpenEnd bool `json:"openEnd,omitempty"`
 	Order    []int    `json:"order,omitempty"`    // xor/inc/ctask: permutation giving the <outgoing> listing order
 	TaskKind string   `json:"taskKind,omitempty"`
 	Results  []string `json:"results,omitempty"` // task: declared result names
@@ -99,6 +103,9 @@ func (lw *Lowered) lowerTop(b *B, blk *Block) {
 		return
 	}
 	b.Connect(st, entry)
+	if exit != nil && blk.OpenEnd && !exit.asDefault && (exit.node.Kind == KTask || exit.node.Kind == KSub) {
+		return
+	}
 	if exit != nil {
 		en := b.Add(KEnd)
 		lw.connect(b, exit, en, nil, nil, 0)
@@ -376,7 +383,9 @@ func GenProgram(t *rapid.T, o GenOpts) *Block {
 		o.MaxNodes = 12
 	}
 	c := &genCtx{o: o, budget: o.MaxNodes}
-	return c.seq(t, o.MaxDepth, true)
+	top := c.seq(t, o.MaxDepth, true)
+	top.OpenEnd = rapid.IntRange(0, 5).Draw(t, "openEnd") == 0
+	return top
 }
 
 func (c *genCtx) task(t *rapid.T) *Block {
